@@ -14,7 +14,7 @@
 //!   bare(id)                       a host object overriding NOTHING (all trait defaults)
 //!   derived(id)                    a `#[koto_impl]` object (methods reached through `.` access)
 //!   nat_true / nat_false / nat_val native functions (log themselves) for use as metakey entries
-//! `beh` is one of val | true | false | null | unimpl | err.
+//! `beh` is one of val | true | false | null | unimpl | err | rt.
 use kh::script::ScriptVm;
 use kh::*;
 use koto_runtime::{ErrorKind, Result, derive::*, prelude::*};
@@ -99,6 +99,7 @@ impl Core {
             "null" => Ok(KValue::Null),
             "unimpl" => self.unimpl(key),
             "err" => unexpected_args("boom", &[]),
+            "rt" => unexpected_type("Thing", &KValue::Null),
             _ => Ok(format!("{}{}", self.id, key).into()),
         }
     }
